@@ -46,7 +46,9 @@ GCC_OK_STANDALONE = ["-c", "-g", "-g3", "-ggdb", "-g1", "-O", "-O0", "-O2", "-O3
 
 def scan(args, grouped=False):
     """grouped=False: -I and -isystem values in one list in command-line order;
-    grouped=True: all -I values (in order) followed by all -isystem values (in order), the order a compiler searches."""
+    grouped=True: all -I values (in order) followed by all -isystem values (in order), the order a compiler searches;
+    a directory named by -I and also by -isystem is searched in its -isystem position only (gcc: "the -I option is
+    ignored"; confirmed per case by the gcc runs of C04's `dupdirs` class), compared after os.path.normpath."""
     defines, paths, spaths, files = [], [], [], []
     dest = {"-D": defines, "-I": paths, "-isystem": spaths if grouped else paths, "-include": files}
     i = 0
@@ -81,4 +83,8 @@ def scan(args, grouped=False):
             i += 1 + SEPARATE[a]
             continue
         i += 1
+    if grouped:
+        import os
+        sysset = {os.path.normpath(x) for x in spaths}
+        paths = [x for x in paths if os.path.normpath(x) not in sysset]
     return defines, paths + spaths, files
